@@ -8,7 +8,7 @@ Line protocol of C14 (stateful; `reset` starts a new case).
 new <0|1> <cfg>                         ColorsConfig(cfg, no_color=…)                 -> ok | err E
 add <cfg>                               conf.add_new_items(flat dict, "later")        -> ok | err E
 reg <name> <cfg>                        conf.register_color_conf_component(cfg, name) -> ok | err E
-cls <k> <parents|none> <accessors|none> <cfg|nodefaults>    define palette class k    -> ok
+cls <k>[@<name>] <parents|none> <accessors|none> <cfg|nodefaults>   define palette class k -> ok
 pal <k> <0|1>                           P_k(conf, no_color=…), every accessor rendered -> ok a=prefix;… | err E
 get <id>                                conf.get_color(id)                            -> ok <prefix>
 ids                                     sorted ids with R(esolved)/U(nresolved)       -> ok id:R;…
@@ -130,7 +130,8 @@ def handle (st : DrvState) (line : String) : DrvState × String :=
   match splitWs line with
   | ["reset"] => (⟨none, false, []⟩, "ok")
   | "cls" :: k :: ps :: accs :: cfg =>
-    match k.toNat?, parseParents ps, parseAccessors accs with
+    -- `k` or `k@<name>`: the Python name of the class (no meaning in the model: a class is its index)
+    match (k.splitOn "@").head?.bind (·.toNat?), parseParents ps, parseAccessors accs with
     | some k, some ps, some accs =>
       let dflt : Option (Option Cfg) :=
         if cfg = ["nodefaults"] then some none else (cfgOfTokens cfg).map some
